@@ -970,6 +970,10 @@ class Interp:
             except AttributeError as e:
                 raise PyRaise("AttributeError", msg=str(e))
         if isinstance(obj, (Z, LList, LDict, LTuple, LSet, ZSeq, ZBool, ZInt)):
+            if isinstance(obj, Z) and name == "__name__":
+                # name of a function value: an injective function of its identity (distinct functions, distinct names)
+                self.guard([("AttributeError", z3.Not(z3.Or(V.is_func(obj.t), V.is_type(obj.t))))])
+                return Z(V.VStr(z3.Function("NameOf", V.Val, V.S)(obj.t)))
             if isinstance(obj, Z) and obj.cls is not None:
                 return self.zobj_attr(obj, name)
             if isinstance(obj, Z) and getattr(self, "opaque_objects", False):
@@ -1339,7 +1343,8 @@ class Interp:
         con = self.contracts.get(qn)
         if getattr(self, "frame_only", False):
             con = self.contracts.get(qn + "#frame") or con
-        if con is not None and qn != (self.verifying or "").split("#")[0] and not force_inline and not con.inline:
+        if con is not None and qn != (self.verifying or "").split("#")[0] and not force_inline and not con.inline and not (
+                con.inline_at_calls and not getattr(self, "frame_only", False)):
             from .contract_apply import apply_contract
             self.contract_calls.add(qn)
             return apply_contract(self, con, f, args, kwargs)
